@@ -16,7 +16,26 @@
 //! The proviso of the statement ("provided its variable-length parts fit what the protocol
 //! permits") lives in the generators (`chunk`) and in `legal` (for parsed values), never in
 //! a loosened comparison; the few places where the comparison itself is lenient are
-//! documented at the type (`same`).
+//! documented at the type (`same`) and listed in the evidence (`assumptions`).
+//!
+//! Verdict clauses and signature scheme (`C06/<clause>/<Type>[/<class>]/<cause>`):
+//!
+//!  * `buffer_len-panic`, `emit-panic` (cause = source file of the panic), `emit-refuses`
+//!    (fallible emit returned Err on a buffer of the declared length);
+//!  * `emit-depends-on-buffer`: the three emissions differ; cause = a name for the bytes left
+//!    as they were (type hook `dirty_cause`) or the raw offsets (checksum field excluded,
+//!    a dirty byte elsewhere changes it as well);
+//!  * `roundtrip-differs` / `roundtrip-parse-fails` / `roundtrip-parse-panic`: the zero-fill
+//!    emission of a generated value does not parse back to it; cause = names of the
+//!    differing fields (or, for a rejection, whether it is the checksum verification that
+//!    rejects and which fields would differ without it);
+//!  * `reparse-*`: the same for a value obtained by parsing a mutated / hand-made packet.
+//!
+//! What the *dirty* emissions parse to gives no verdict of its own (it is a consequence of
+//! the buffer dependence) and only appears in the detail text.  `<class>` is the enum
+//! variant or, for types with several layouts, the layout class (type hook `sig_tag`).
+//! A replay artefact names the generated value by (tier, chunk, index) in the generator's
+//! deterministic order, plus the mutation (position, value) or the catalogue index.
 
 use crate::core::*;
 use rayon::prelude::*;
@@ -641,7 +660,7 @@ fn run_type<T: Rt>(tier: Tier, out: &mut Vec<TypeStats>) {
     }
     compact(&mut acc);
     let mut last = acc.fps.len();
-    for batch in chosen.chunks(1024) {
+    for batch in chosen.chunks(4096) {
         let subs: Vec<Acc> = batch
             .par_iter()
             .map(|(ci, vi, b, c)| {
@@ -806,6 +825,17 @@ macro_rules! each_type {
     };
 }
 
+/// Runs the emit/parse check on one value that lies OUTSIDE the enumerated domain and returns
+/// what would have been reported; goes into the evidence as an observation, never as a verdict.
+pub fn probe<T: Rt>(r: &T::R<'_>, c: &T::Ctx) -> Value {
+    let mut acc = Acc::default();
+    let o = Origin { chunk: 0, index: 0, mutation: None, catalogue: None };
+    let emitted = check::<T>(&mut acc, Tier::Quick, r, c, &o);
+    let outcome: Vec<String> = acc.viols.keys().map(|k| k.trim_start_matches("C06/").to_string()).collect();
+    json!({"type": T::NAME, "value": format!("{:?}", r), "emitted": emitted.map(|b| hex(&b)),
+        "outcome": if outcome.is_empty() { vec!["round-trips".to_string()] } else { outcome }})
+}
+
 fn doc_type<T: Rt>(m: &mut serde_json::Map<String, Value>) {
     m.insert(T::NAME.to_string(), json!(T::domain_doc()));
 }
@@ -816,6 +846,22 @@ pub fn run(tier: Tier) -> i32 {
     rep.assumptions.push("declared length = Repr::buffer_len(); for types whose API keeps the payload outside the Repr (Ipv4Repr, Ipv6Repr, UdpRepr, SixlowpanUdpNhcRepr, Ipv6ExtHeaderRepr, MldAddressRecordRepr, MldRepr::ReportRecordReprs) = header length + payload, the payload being written by the harness the way the interface code does".into());
     rep.assumptions.push("clause 3 (mutants) parses with ChecksumCapabilities::ignored(), then re-emits/re-parses the obtained value with default (verifying) capabilities; a panic of a parser on a mutated packet is counted (mutant_parse_panics) but is property C07's subject, not reported here".into());
     rep.assumptions.push("distinct emitted byte strings are counted through a 64-bit SipHash of (type, bytes)".into());
+    for a in [
+        "enum_with_unknown types: Unknown(x) only for x that is not one of the named values (Unknown(known) is a second spelling of the same wire value)",
+        "Icmpv4Repr error messages: embedded header.payload_len = data.len() >= 8 (the parser reports the length it can see; longer originals are cut by design)",
+        "Icmpv6Repr error messages: data.len() <= 1192 (cut to the minimum MTU by design beyond that)",
+        "NDISC: link-layer addresses of 6 or 8 bytes (the lengths RawHardwareAddress::parse knows); RedirectedHeader with header.payload_len = data.len(); NdiscRepr / MldRepr are emitted without the checksum, which the enclosing Icmpv6Repr::emit owns (harness zeroes it; the full path is covered under Icmpv6Repr)",
+        "MldRepr::ReportRecordReprs is emit-only: declared length = 8 + 20 per record and equality = the parsed Report carries the same records; MldAddressRecordRepr: multicast addresses only (documented panic otherwise), payload written by the harness",
+        "IgmpRepr: v1 query <-> max_resp_time 0; v2 query only with durations an 8-bit max-resp code denotes; group 0.0.0.0 or multicast",
+        "TcpRepr: options <= 40 bytes; SACK blocks only with an ACK and without SACK-permitted, filled from the front of the array; window_scale <= 14; ports != 0",
+        "DhcpRepr: additional_options are compared with the unknown options observed in the emitted packet (the field is documented as emit-only)",
+        "DnsRepr (no parse): read back through DnsPacket accessors + DnsQuestion::parse; names are well-formed encoded names <= 255 bytes",
+        "Ieee802154Repr: security_enabled = false (no field for the auxiliary security header); frames for which the parser yields no addressing information are not re-emitted; the 2015 row (dst absent, src present, compression) where smoltcp's parser and the standard's table disagree is not generated",
+        "Ipv6HopByHopRepr: non-empty option lists; Ipv6ExtHeaderRepr / Ipv6OptionRepr::Unknown / NdiscOptionRepr::Unknown: data exactly as long as the length field says",
+        "SixlowpanIphcRepr: (ecn, dscp, flow_label) only in the four shapes of the TF field (buffer_len is unreachable!() otherwise)",
+    ] {
+        rep.assumptions.push(a.into());
+    }
     let mut stats: Vec<TypeStats> = vec![];
     each_type!(run_type, tier, &mut stats);
     let mut docs = serde_json::Map::new();
@@ -880,8 +926,21 @@ pub fn run(tier: Tier) -> i32 {
     rep.cov("fills", json!(["0x00", "0xff", "0xa5"]));
     rep.cov("per_type", Value::Object(per_type));
     rep.cov("domains", Value::Object(docs));
+    rep.cov("outside_domain_observations", json!({
+        "note": "values the generators deliberately leave out (proviso of the statement / lenient reading, see assumptions); what the check would say about them is recorded here for information only and never counted as a violation",
+        "probes": observations(),
+    }));
     rep.and_exhaustive(true);
     rep.finish()
+}
+
+fn observations() -> Vec<Value> {
+    let mut v = vec![];
+    v.extend(icmp::observations());
+    v.extend(transport::observations());
+    v.extend(link::observations());
+    v.extend(ip::observations());
+    v
 }
 
 pub fn replay(art: &serde_json::Value) -> i32 {
